@@ -1501,3 +1501,72 @@ func ErrLoop(w *load.World, c *core.Collector) {
 	emitLint(c, "ERRLOOP", "error-overwritten-in-loop", seen, perLoop, extra)
 	emitLint(c, "ERRLOOP", "success-before-error-test", seen, perSkip, extra)
 }
+
+// pqTableFromMetric: the query's lookup table of a product quantiser holds, per sub-vector and
+// centroid, the distance of the configured metric between the two — the result of the quantiser's
+// distance function, not an algebraic rewrite of it (|x|²−2<x,c>+|c|² cancels catastrophically for
+// large, close vectors; a clamp hides the sign).
+func pqTableFromMetric(w *load.World, c *core.Collector) {
+	props := []string{"C20", "C04", "C08"}
+	n := 0
+	bad := ""
+	for _, f := range w.Fns {
+		if load.PkgPath(f) != load.Mod+"/shard/vectorstore" || f.Synthetic != "" || f.Name() != "DistanceFromFloat" || f.Signature.Recv() == nil || !strings.HasSuffix(ssax.TypeName(f.Signature.Recv().Type()), "productQuantizer") {
+			continue
+		}
+		for _, g := range append([]*ssa.Function{f}, f.AnonFuncs...) {
+			for _, b := range g.Blocks {
+				for _, in := range b.Instrs {
+					s, ok := in.(*ssa.Store)
+					if !ok {
+						continue
+					}
+					ia, ok := s.Addr.(*ssa.IndexAddr)
+					if !ok {
+						continue
+					}
+					base := ia.X
+					if ld, isLd := base.(*ssa.UnOp); isLd && ld.Op == token.MUL {
+						if al, isAl := ld.X.(*ssa.Alloc); isAl {
+							if sv := ssax.SingleStore(al); sv != nil {
+								base = sv
+							}
+						} else if fv, isFv := ld.X.(*ssa.FreeVar); isFv {
+							if cell := capturedCell(fv); cell != nil {
+								if sv := ssax.SingleStore(cell); sv != nil {
+									base = sv
+								}
+							}
+						}
+					}
+					if _, isMake := base.(*ssa.MakeSlice); !isMake {
+						continue
+					}
+					if bt, ok := s.Val.Type().Underlying().(*types.Basic); !ok || bt.Kind() != types.Float32 {
+						continue
+					}
+					n++
+					okVal := false
+					if call, isCall := s.Val.(*ssa.Call); isCall && !call.Call.IsInvoke() {
+						if ld, isLd := call.Call.Value.(*ssa.UnOp); isLd && ld.Op == token.MUL {
+							if fa, isFa := ld.X.(*ssa.FieldAddr); isFa && strings.HasSuffix(fieldOf(fa), ".distFn") {
+								okVal = true
+							}
+						}
+					}
+					if !okVal {
+						bad = w.At(in)
+					}
+				}
+			}
+		}
+	}
+	switch {
+	case n == 0:
+		c.Add("QDIST", "pq-table-from-metric", core.Undecided, "", "the lookup table of the product quantiser's query distance was not found", props...)
+	case bad != "":
+		c.Add("QDIST", "pq-table-from-metric", core.Violation, bad, "an entry of the product quantiser's query table is not the result of the configured distance function on the sub-vector and the centroid (it is computed some other way: an expansion by norms, a clamp): the reported distances differ from the metric's, catastrophically for large vectors that are close together", props...)
+	default:
+		c.Add("QDIST", "pq-table-from-metric", core.OK, "", "", props...)
+	}
+}
